@@ -37,6 +37,10 @@ PLAN = {
     "geradeweg": {"quick": [(2, 2, 0), (2, 3, 150), (3, 3, 100)], "thorough": [(2, 2, 0), (2, 3, 0), (3, 2, 0), (3, 3, 6000), (3, 4, 1500)]},
     "castle_wall": {"quick": [(2, 2, 200), (2, 3, 150), (3, 3, 100)], "thorough": [(2, 2, 0), (2, 3, 8000), (3, 2, 4000), (3, 3, 4000)]},
     "compass": {"quick": [(1, 3, 150), (2, 2, 150), (2, 3, 120)], "thorough": [(1, 3, 0), (3, 1, 4000), (2, 2, 6000), (2, 3, 6000), (3, 2, 3000), (3, 3, 1500)]},
+    "shakashaka": {"quick": [(1, 3, 0), (2, 2, 400), (2, 3, 60)], "thorough": [(1, 3, 0), (3, 1, 0), (2, 2, 0), (2, 3, 3000), (3, 2, 1500)]},
+    # fivecells boards: (h, w, count, hole mask)
+    "fivecells": {"quick": [(1, 5, 300, 0), (5, 1, 200, 0), (2, 3, 300, 32), (3, 2, 200, 1)],
+                  "thorough": [(1, 5, 0, 0), (5, 1, 0, 0), (2, 3, 0, 32), (3, 2, 0, 1), (2, 5, 3000, 0), (5, 2, 1500, 0), (3, 4, 800, 2049)]},
     "gokigen": {"quick": [(1, 1, 0), (1, 2, 150), (2, 2, 100), (2, 3, 60)], "thorough": [(1, 1, 0), (1, 2, 6000), (2, 1, 3000), (2, 2, 4000), (2, 3, 2000), (3, 3, 600)]},
 }
 
@@ -48,14 +52,14 @@ def run(tier, seed):
     # one single-worker TLC process per (puzzle, board), many at a time: these enumerator runs are dominated by the
     # evaluation of large constant sets, which TLC does fastest with one worker (measured: 12 s vs 92 s with 16)
     from concurrent.futures import ThreadPoolExecutor
-    todo = [(pz, h, w, cnt) for pz, plan in PLAN.items() for (h, w, cnt) in plan[tier]]
+    todo = [(pz,) + tuple(b) + ((0,) if len(b) == 3 else ()) for pz, plan in PLAN.items() for b in plan[tier]]
 
     def one(job):
-        pz, h, w, cnt = job
+        pz, h, w, cnt, holes = job
         return job, run_tlc("MC_Puzzle", "MC_Puzzle", workdir=chk.dir, timeout=6000, workers=1, heap="3g",
-                            env={"PUZZLE": pz, "BH": h, "BW": w, "COUNT": cnt, "SEED": seed % 1000})
+                            env={"PUZZLE": pz, "BH": h, "BW": w, "COUNT": cnt, "SEED": seed % 1000, "HOLEMASK": holes})
     with ThreadPoolExecutor(max_workers=12) as ex:
-        for (pz, h, w, cnt), res in ex.map(one, todo):
+        for (pz, h, w, cnt, holes), res in ex.map(one, todo):
             chk.add_tlc(res)
             cases += res.records
             covered.setdefault(pz, []).append(f"{h}x{w}:{len(res.records)}")
